@@ -6,19 +6,56 @@ SPEC = {
              "harness-triggered merge / level compaction / full compaction passes (hook H4, the planner is the real one), clean restart; after every action a "
              "generated selection (field subset x time range with ends on/inside/outside data x asc/desc x grouped/ungrouped x tag filter) must equal the "
              "last-write-wins replay of the acknowledged writes (sorted by time, one row per (series,time)). Non-trivial: the read range holds cells of >= 2 flush "
-             "generations and some (series,time) was written in >= 2 of them; distinct by (set of read shapes x layouts, op list)"),
+             "generations and some (series,time) was written in >= 2 of them; distinct by (set of read shapes x layouts, op list). "
+             "Library-level companion (lib_* campaigns, in-process, exported API only, thousands of cases per second): generated records (all four column types, "
+             "null patterns none/sparse/dense/all, fields of two records same/subset/independent/disjoint, built by appending or as SliceFromRecord views) against "
+             "a last-write-wins fold time -> field -> value, checked in both directions (rows strictly ordered, no timestamp twice, no cell invented, stale, "
+             "dropped or nulled) together with the internal consistency of every returned record (null bitmap vs NilCount vs stored values, schema order). "
+             "lib_merge_pair: MergeRecord/MergeRecordDescend/MergeRecordLimitRows[Descend] of a newer over an older record (placement interleaved/touching/"
+             "disjoint/contained/same times, 1..300 rows, timestamps up to the ends of the legal range; limit = sum as the aggregate cursor passes it, or cutting, "
+             "then drained with the returned positions) and the fold "
+             "of 2..4 out-of-order records as tsmMergeCursor does; non-trivial = >= 1 equal timestamp and a field present in only one of the two. "
+             "lib_cursor_merge: the memtable record over the stream of file records through a statement-by-statement mirror of seriesCursor.nextInner/mergeData "
+             "(MergeRecordByMaxTimeOfOldRec, SliceFromRecord, KickNilRow with the cursor's ColAux), optionally with the tsmMergeCursor stage underneath (merged "
+             "out-of-order record over the ordered file records, its batches feeding the series cursor), max rows per batch 1..1000, ascending and descending; "
+             "non-trivial = equal timestamp with a field valued in only one of the two rows. "
+             "lib_sort_dedup: ColumnSortHelper.Sort of a write-order record (duplicate timestamps, any order, helper fresh or used) and of concatenations of "
+             "records with different schemas built as ChunkIterators.Next / shelf reader / wal reader build them (Record.Merge, AppendRec; the concatenation "
+             "itself is compared row by row); non-trivial = duplicate timestamps (and a schema mismatch for concatenations). "
+             "lib_memtable: engine/mutable MemTable: WriteRows batches over 2 measurements x 3 series with partial rows and repeated timestamps, snapshot "
+             "switch, MemTables.Values (active over snapshot, time range, field subset, both orders) + KickNilRow, flush walk (ApplyConcurrency, GetAllSid, "
+             "chunk.SortRecord, CheckRecord, SplitRecordByTime at generated last-flushed times); non-trivial = a series written out of order with a repeated "
+             "timestamp. lib_ooo_column_merge: record.MergeHelper + immutable.MergeTimes/FillNilCol as merge_performer/unordered_reader use them: 0..3 "
+             "out-of-order columns (oldest first, possibly lacking the column) folded over an all-null column, then over the ordered column; non-trivial = "
+             "an out-of-order time equal to an ordered one. Distinct = hash of the whole case"),
     "assumptions": ["the instants of reorganisation are chosen by the harness (hook H4) in addition to the server's own 10 s ticker",
-                    "HTTP 204 is the acknowledgement; new series are awaited in show series before the first read (index visibility lag)"],
+                    "HTTP 204 is the acknowledgement; new series are awaited in show series before the first read (index visibility lag)",
+                    "lib: inputs of the record merges are sorted by time without duplicates and non-empty, field names sorted with time last, one type per "
+                    "field name (what Record.Copy, the file readers and the sort helper hand on); the first record argument is the newer one",
+                    "lib: file records reaching the series cursor hold at most max-rows rows and follow each other in time; the memtable record is one record",
+                    "lib: out-of-order columns are added oldest file first (UnorderedReader.AddFiles order); integers written through influx.Row stay within "
+                    "+-2^53 (float64 transport, subject of C06)",
+                    "lib: a row whose selected fields are all null may be present or absent in a merge result (the readers drop it with KickNilRow); "
+                    "SortRecordIfNeeded (optional compaction repair) and the row-based record.SortHelper (log store) are not on the C02 paths and not checked"],
     "campaigns": [
         {"name": "layout_histories", "run": "^TestLayoutHistories$", "quick": B(4, 10, 900, steps=20, shrinktime="60s"),
          "thorough": B(60, 14, 3400, steps=40, shrinktime="180s")},
+        {"name": "lib_merge_pair", "run": "^TestLibMergePair$", "quick": B(40000, 2, 300, shrinktime="10s"), "thorough": B(1500000, 4, 1500)},
+        {"name": "lib_cursor_merge", "run": "^TestLibCursorMerge$", "quick": B(40000, 2, 300, shrinktime="10s"), "thorough": B(2500000, 3, 1500)},
+        {"name": "lib_sort_dedup", "run": "^TestLibSortDedup$", "quick": B(40000, 2, 300, shrinktime="10s"), "thorough": B(3000000, 3, 1500)},
+        {"name": "lib_memtable", "run": "^TestLibMemtable$", "quick": B(8000, 3, 300, shrinktime="10s"), "thorough": B(600000, 4, 1500)},
+        {"name": "lib_ooo_column_merge", "run": "^TestLibColumnMerge$", "quick": B(40000, 2, 300, shrinktime="10s"), "thorough": B(3000000, 2, 1500)},
     ],
 }
 
 META = {
     "engine": "bb-server",
-    "technique": "model-based stateful PBT (rapid) against the real server, last-write-wins map as reference model",
+    "technique": "model-based stateful PBT (rapid) against the real server, last-write-wins map as reference model; in-process rapid properties on the record "
+                 "merge / sort / memtable code against the same fold",
     "text": ("Generated write/flush/merge/compaction/restart histories with a generated read after every step, compared exactly with a last-write-wins model. "
-             "Exploration: samples histories and layouts (counted in the evidence), no exhaustiveness."),
-    "note": "Trusts the harness' model and result comparison; layouts reached are those the real planner produces for the generated file sets.",
+             "A library-level companion drives the data-structure code those paths share (record merges, sort + de-duplication, memtable, column merge of "
+             "ordered with out-of-order data) with generated records against the same fold. "
+             "Exploration: samples histories, layouts and record shapes (counted in the evidence), no exhaustiveness."),
+    "note": ("Trusts the harness' model and result comparison; layouts reached are those the real planner produces for the generated file sets. The library "
+             "campaigns call exported functions in the patterns read from their callers (mirrored loops are copies of engine code, not the engine code itself)."),
 }
